@@ -165,6 +165,7 @@ def receiver_order(F, R):
 
 
 def check(F, R, tier):
+    lib.flavour_siblings(R, F, r'^iceoryx2::port::subscriber::Subscriber::<.*>::receive$', 'SIBLINGS', 'a sample is handed out under the same conditions for every payload flavour', floor=1)
     refresh_before_use(F, R)
     history(F, R)
     skip_refresh_only_if_unchanged(F, R)
